@@ -120,30 +120,19 @@ def _enclosing_name(text_lines, line):
 
 
 def insert_vacuity_probes(text, fn_ranges):
-    """vacuity twin: every verified repo function gets `assert(false)` as its first statement.
-    Each must be reported as failing; a function where `false` is provable has contradictory
-    preconditions / assumed contracts."""
+    """vacuity twin: every verified repo function gets `assert(false)` as its first statement
+    (the assembler marks each body opening with /*vf-body*/). Each must be reported as failing; a
+    function where `false` is provable has contradictory preconditions / assumed contracts."""
     lines = text.split("\n")
     probes = {}
     for a, b, path, file, fl, mode in fn_ranges:
         if mode != "verify":
             continue
-        # find the body-opening brace: the first line in [a,b] whose stripped text is "{" or ends with "{"
-        # after the contract; the assembler emits the body brace as its own token right after the spec.
-        depth_line = None
         for j in range(a - 1, min(b, len(lines))):
-            if re.match(r"^\s*\{", lines[j]) or (j > a - 1 and lines[j].rstrip().endswith("{") and
-                                                  not re.search(r"\b(requires|ensures|recommends)\b", lines[j])):
-                depth_line = j
+            if "/*vf-body*/" in lines[j]:
+                lines[j] = lines[j].replace("/*vf-body*/", " assert(false); ", 1)
+                probes[path] = j + 1
                 break
-            if j == a - 1 and lines[j].rstrip().endswith("{"):
-                depth_line = j
-                break
-        if depth_line is None:
-            continue
-        k = lines[depth_line].index("{")
-        lines[depth_line] = lines[depth_line][:k + 1] + " assert(false); " + lines[depth_line][k + 1:]
-        probes[path] = depth_line + 1
     return "\n".join(lines), probes
 
 
